@@ -498,11 +498,15 @@ func (b *Builder) SetRevisionDate(o interface{}, revisionDate string) {
 }
 
 func (b *Builder) Unique(o interface{}, unique string) {
-	i, valid := o.(*List)
-	if !valid {
-		b.setErr(fmt.Errorf("%T does not support key, only lists do", o))
-	} else {
-		i.unique = append(i.unique, strings.Split(unique, " "))
+	switch x := o.(type) {
+	case *List:
+		x.unique = append(x.unique, strings.Split(unique, " "))
+	case *AddDeviate:
+		x.unique = append(x.unique, strings.Split(unique, " "))
+	case *DeleteDeviate:
+		x.unique = append(x.unique, strings.Split(unique, " "))
+	default:
+		b.setErr(fmt.Errorf("%T does not support unique, only lists and deviations of lists do", o))
 	}
 }
 
